@@ -7,17 +7,20 @@ import oracle
 
 REQUIRED_THEOREMS = [
     'C07_transform', 'C07_zero', 'C07_zero_ll', 'C07_zero_indiv',
-    'C07_equiv_per_individual', 'C07_equiv_indiv', 'C07_equiv_indiv_partial',
-    'C07_indiv_negscale_counterexample', 'C07_hetero_ll_counterexample',
+    'C07_equiv_per_individual', 'C07_equiv_per_individual_legacy_partial', 'C07_equiv_indiv',
+    'C07_equiv_indiv_partial', 'C07_indiv_negscale_counterexample', 'C07_hetero_ll_counterexample',
     'C07_equiv_sample',
     'C07_grad', 'C07_grad_transpose', 'C07_grad_entries', 'C07_th_hasDerivAt', 'C07_grad_hasDerivAt',
-    'C07_grad_reduced_partial', 'C07_grad_pooled_counterexample', 'C07_grad_pooled_intended',
+    'C07_grad_partial', 'C07_grad_reduced', 'C07_grad_reduced_legacy_partial',
+    'C07_grad_pooled_counterexample',
+    'C07_grad_gauss', 'C07_grad_gauss_centred', 'C07_grad_logn_centred', 'C07_grad_trunc',
+    'C07_grad_gauss_noncentred', 'C07_grad_logn_noncentred', 'C07_grad_pointmass',
     'C07_selection', 'C07_selection_unique', 'C07_selection_order_irrelevant',
     'C07_beta_index_bijection', 'C07_names', 'C07_names_invariant', 'C07_constructor_selection',
-    'C07_constructor_names', 'C07_setpop_checked',
-    'C07_unstable_counterexample', 'C07_setpop_counterexample', 'C07_callerorder_counterexample',
-    'C07_th_bridge', 'C07_grad_partial', 'C07_setpop_out_of_range', 'C07_unstable_acts_on',
-    'C07_legacy_stable_partial', 'C07_grad_gauss']
+    'C07_constructor_names', 'C07_setpop_checked', 'C07_setpop_out_of_range',
+    'C07_unstable_counterexample', 'C07_unstable_acts_on', 'C07_setpop_counterexample',
+    'C07_callerorder_counterexample', 'C07_legacy_stable_partial', 'C07_th_bridge',
+    'C07_set_n_ids_counterexample', 'C07_set_n_ids_partial', 'C07_set_n_ids_intended']
 RULE = ('wrapped model in {Gaussian, LogNormal} x {centred, non-centred}, TruncatedGaussian, Pooled, '
         'Heterogeneous; n_dim 1..6, n_cov 1..3, n_ids 1..5; selection = constructor default or a random '
         'non-empty list of in-range [param, dim] pairs of every size, any order, with duplicates, given as '
@@ -135,16 +138,6 @@ def S(ctx, tag, ok, inp, detail=None):
     return ctx.spec(tag, ok, inp, detail)
 
 
-def agree_either(ctx, label, chi_out, legacy, intended, inp, **kw):
-    """a step that is modelled in two variants (the code as it is / what the property demands):
-    chi has to match one of them; which one is recorded"""
-    if not core.close(chi_out, legacy, kw.get('rtol', 1e-9), kw.get('atol', 0.0)) and \
-            core.close(chi_out, intended, kw.get('rtol', 1e-9), kw.get('atol', 0.0)):
-        ctx.branches.add(label + ':intended-variant')
-        return ctx.agree(label, chi_out, intended, inp, **kw)
-    return ctx.agree(label, chi_out, legacy, inp, **kw)
-
-
 def as_input(sel, form):
     if form == 'tuples':
         return [tuple(x) for x in sel]
@@ -156,11 +149,15 @@ def as_input(sel, form):
 # ----------------------------------------------------------------------------------------
 # generator
 # ----------------------------------------------------------------------------------------
-def gen_case(rng, force_kind=None):
+def gen_case(rng, force_kind=None, wide=False):
     kind = force_kind or KINDS[int(rng.integers(len(KINDS)))]
     n_dim = int(rng.choice([1, 2, 2, 3, 4, 4, 5, 6]))
     n_cov = int(rng.integers(1, 4))
     n_ids = int(rng.integers(1, 6))
+    if wide:        # thorough tier: beyond the sizes the property text names
+        n_dim = int(rng.integers(1, 10))
+        n_cov = int(rng.integers(1, 6))
+        n_ids = int(rng.integers(1, 9))
     pd_ = per_dim(kind, n_ids)
     all_pairs = [(p, d) for p in range(pd_) for d in range(n_dim)]
     route = str(rng.choice(['ctor', 'pop', 'pop', 'pop+dims', 'pop2']))
@@ -184,8 +181,8 @@ def gen_case(rng, force_kind=None):
     if route == 'pop2':
         ops.append(['P', rand_sel()])
     form = str(rng.choice(['lists', 'tuples', 'ndarray']))
-    cov_names = None if rng.random() < 0.5 else ['age', 'wt', 'sex'][:n_cov]
-    dim_names = None if rng.random() < 0.6 else ['a', 'b', 'c', 'd', 'e', 'f'][:n_dim]
+    cov_names = None if rng.random() < 0.5 else ['age', 'wt', 'sex', 'bmi', 'crcl'][:n_cov]
+    dim_names = None if rng.random() < 0.6 else ['a', 'b', 'c', 'd', 'e', 'f', 'g', 'h', 'k'][:n_dim]
     sel_final = all_pairs
     for o in ops:
         if o[0] == 'P':
@@ -482,7 +479,7 @@ def _run_case(ctx, chi, case):
     # ---- likelihood
     ll = call(cpm.compute_log_likelihood, params, obs, cov)
     ll = ll if isinstance(ll, str) else float(ll)
-    agree_either(ctx, 'C07.ll', ll, me[1], me[2], inp, rtol=1e-3 if tg_tail else 1e-9)
+    ctx.agree('C07.ll', ll, me[1], inp, rtol=1e-3 if tg_tail else 1e-9)
     ctx.branches.add('ll:%s:%s' % (kind, ll if isinstance(ll, str) else core.fclass(ll)))
     spec_ll = call(per_ind_ll, base, kind, th, obs)
     S(ctx, 'C07.equiv_ll/' + cname, core.close(ll, spec_ll), inp, {'chi': ll, 'per_individual': spec_ll})
@@ -552,23 +549,64 @@ def _run_case(ctx, chi, case):
             S(ctx, 'C07.grad/' + cname, ok, inp, {'reduce': False, 'chi': out[2], 'per_individual': spec})
         else:
             red = np.asarray(out[1], float)
-            agree_either(ctx, 'C07.sens.reduced', red, ms[1], ms[2], inp, rtol=1e-8, atol=1e-10)
+            ctx.agree('C07.sens.reduced', red, ms[1], inp, rtol=1e-8, atol=1e-10)
             exp = None if isinstance(spec, str) else np.concatenate([spec[1].flatten(), spec[2]])
             ok = exp is not None and len(red) == nh[0] + nh[1] and core.close(red, exp, rtol=1e-8, atol=1e-10)
             S(ctx, 'C07.grad/' + cname, ok, inp,
                      {'reduce': True, 'len': len(red), 'announced': [int(nh[0]), int(nh[1])], 'chi': red,
                       'per_individual': exp})
             if exp is not None:
-                ctx.agree('C07.sens.reduced.intended', exp, ms[2], inp, rtol=1e-8, atol=1e-10)
+                ctx.agree('C07.sens.reduced.spec', exp, ms[1], inp, rtol=1e-8, atol=1e-10)
             # finite differences of chi's own functions: F = log-likelihood + <w, psi>
             # (finite differences are meaningless next to a vanishing scale)
             if not tg_tail and (kind in ('P', 'H') or float(np.min(th[:, 1, :])) > 0.05):
                 fd_check(ctx, cpm, kind, cname, params, obs, eta, cov, w, red, n_ids, n_dim, inp,
                          case['fd_seed'])
 
+    # ---- the covariate model as a sub-model of a ComposedPopulationModel (where chi uses it)
+    if finite and scales_pos and not tg_tail and case['fd_seed'] % 3 == 0:
+        composed_check(ctx, chi, cpm, kind, cname, params, obs, cov, w, n_ids, n_dim, inp)
+
     # ---- sampling: exact replay of the primitive stream
     sample_check(ctx, chi, cpm, base, kind, cname, params, th, cov, n_ids, n_dim, pd_, n_cov, sel_l, covl,
                  case['seed'], inp, scales_pos)
+
+
+def composed_check(ctx, chi, cpm, kind, cname, params, obs, cov, w, n_ids, n_dim, inp):
+    """[covariate model, GaussianModel(1)] composed: value and reduced gradient are those of the parts,
+    laid out as n_hierarchical_parameters announces (the call site of DESIGN Appendix A #3)"""
+    g1 = chi.GaussianModel(1)
+    cm = chi.ComposedPopulationModel([cpm, g1])
+    cm.set_n_ids(n_ids)
+    gpar = np.array([0.3, 1.1])
+    gobs = np.linspace(-0.5, 0.9, n_ids).reshape(n_ids, 1)
+    wg = np.linspace(0.2, -0.4, n_ids).reshape(n_ids, 1)
+    full_p = np.concatenate([params, gpar])
+    full_o = np.hstack([obs, gobs])
+    full_w = None if w is None else np.hstack([w, wg])
+    ll = call(cm.compute_log_likelihood, full_p, full_o, covariates=cov)
+    part = call(lambda: float(cpm.compute_log_likelihood(params, obs, cov))
+                + float(g1.compute_log_likelihood(gpar, gobs)))
+    S(ctx, 'C07.composed/' + cname, core.close(ll if isinstance(ll, str) else float(ll), part), inp,
+      {'composed': ll, 'parts': part})
+    out = call(cm.compute_sensitivities, full_p, full_o, dlogp_dpsi=None if full_w is None else full_w.copy(),
+               reduce=True, covariates=cov)
+    if isinstance(out, str):
+        S(ctx, 'C07.composed/' + cname, False, inp, {'reduce': True, 'raised': out})
+        return
+    r1 = cpm.compute_sensitivities(params, obs, cov, dlogp_dpsi=None if w is None else w.copy(), reduce=True)[1]
+    r2 = g1.compute_sensitivities(gpar, gobs, dlogp_dpsi=None if w is None else wg.copy(), reduce=True)[1]
+    r1 = np.asarray(r1, float)
+    r2 = np.asarray(r2, float)
+    nb1 = n_ids * n_dim if kind in HIER else 0
+    b1 = r1[:nb1].reshape(n_ids, -1) if nb1 else np.zeros((n_ids, 0))
+    bottom = np.hstack([b1, r2[:n_ids].reshape(n_ids, 1)]).flatten()
+    exp = np.concatenate([bottom, r1[nb1:], r2[n_ids:]])
+    nh = cm.n_hierarchical_parameters(n_ids)
+    red = np.asarray(out[1], float)
+    S(ctx, 'C07.composed/' + cname, len(red) == nh[0] + nh[1] and core.close(red, exp, rtol=1e-8, atol=1e-10),
+      inp, {'reduce': True, 'len': len(red), 'announced': [int(nh[0]), int(nh[1])], 'composed': red,
+            'parts': exp})
 
 
 def fd_check(ctx, cpm, kind, cname, params, obs, eta, cov, w, red, n_ids, n_dim, inp, fd_seed):
@@ -621,6 +659,17 @@ def sample_check(ctx, chi, cpm, base, kind, cname, params, th, cov, n_ids, n_dim
         sp1 = call(lambda: np.asarray(base.sample(th[0], n_samples=1, seed=g), float))
         S(ctx, 'C07.equiv_sample/single', core.close(one if isinstance(one, str) else np.asarray(one, float), sp1),
                  inp, {'chi': one, 'per_row': sp1})
+    # one covariate row, several samples: the row is broadcast, the stream is still shared
+    if n_s >= 2:
+        outb = call(cpm.sample, params, cov[0], n_samples=n_s, seed=seed)
+
+        def replay_b():
+            g = np.random.default_rng(seed)
+            return np.array([np.asarray(base.sample(th[0], n_samples=1, seed=g))[0] for _ in range(n_s)], float)
+        spb = call(replay_b)
+        S(ctx, 'C07.equiv_sample/broadcast', core.close(outb if isinstance(outb, str) else
+                                                         np.asarray(outb, float), spb), inp,
+          {'chi': outb, 'per_row': spb})
     # correspondence: the model's transformation of the primitive draws
     if kind == 'TG':
         return
@@ -734,30 +783,39 @@ def corpus_case(ctx, spec, k):
 
 def run(ctx):
     chi = core.import_chi()
-    argsort_record(ctx)
-    malformed(ctx, chi)
+    ctx.guard(argsort_record, ctx)
+    ctx.guard(malformed, ctx, chi)
     for k, spec in enumerate(CORPUS):
-        run_case(ctx, chi, corpus_case(ctx, spec, k))
-    hetero_set_n_ids(ctx, chi)
-    n = 700 if ctx.tier == 'quick' else 12000
+        ctx.guard(run_case, ctx, chi, corpus_case(ctx, spec, k))
+    ctx.guard(hetero_set_n_ids, ctx, chi)
+    n = 700 if ctx.tier == 'quick' else 24000
     for i in range(n):
-        run_case(ctx, chi, gen_case(ctx.sub_rng(i)))
+        rng = ctx.sub_rng(i)
+        wide = ctx.tier != 'quick' and i % 4 == 3
+        ctx.guard(run_case, ctx, chi, gen_case(rng, wide=wide))
 
 
 def hetero_set_n_ids(ctx, chi):
-    """a heterogeneous model wrapped first and sized afterwards (what a hierarchical likelihood does)"""
-    for n_dim, n_ids in ((1, 2), (2, 3)):
-        inp = {'kind': 'H', 'n_dim': n_dim, 'n_ids': n_ids, 'history': 'wrap, then set_n_ids'}
+    """a heterogeneous model wrapped first and sized afterwards (what a hierarchical likelihood does);
+    the model carries the code as it is AND the proposed repair — chi has to match one of them"""
+    for n0, n_dim, n_cov, n_ids in ((1, 1, 1, 2), (1, 2, 1, 3), (2, 2, 2, 2), (3, 1, 2, 2), (1, 3, 2, 4)):
+        inp = {'kind': 'H', 'n_ids_at_construction': n0, 'n_dim': n_dim, 'n_cov': n_cov, 'n_ids': n_ids,
+               'history': 'wrap, then set_n_ids'}
+        mo = ctx.model('C07.setnids', n0, n_dim, n_cov, n_ids)
         try:
-            cpm = chi.CovariatePopulationModel(chi.HeterogeneousModel(n_dim), chi.LinearCovariateModel(1))
+            cpm = chi.CovariatePopulationModel(chi.HeterogeneousModel(n_dim, n_ids=n0),
+                                               chi.LinearCovariateModel(n_cov))
             cpm.set_n_ids(n_ids)
             ref = chi.CovariatePopulationModel(chi.HeterogeneousModel(n_dim, n_ids=n_ids),
-                                               chi.LinearCovariateModel(1))
+                                               chi.LinearCovariateModel(n_cov))
             n = cpm.n_parameters()
             names = cpm.get_parameter_names()
             x = np.arange(n, dtype=float) / 4.0
-            cov = np.ones((n_ids, 1))
+            cov = np.ones((n_ids, n_cov))
             out = call(cpm.compute_individual_parameters, x, np.zeros((n_ids, n_dim)), cov)
+            obs = [n, len(names), not isinstance(out, str)]
+            as_is = [mo[0], mo[1], mo[2]]
+            ctx.agree('C07.setnids', obs, as_is if obs == as_is else [mo[3], mo[4], mo[5]], inp)
             ok = (n == ref.n_parameters() and len(names) == n and not isinstance(out, str))
             detail = {'n_parameters': n, 'n_names': len(names), 'expected': ref.n_parameters(), 'evaluate': out}
         except Exception as e:  # noqa
